@@ -44,6 +44,9 @@ type Rec struct {
 type Sess struct {
 	Idx int
 	Tok *ua.NodeID
+	// what CreateSession / the last ActivateSession returned (needed for the client signature)
+	ServerNonce []byte
+	ServerCert  []byte
 }
 
 type Episode struct {
@@ -62,6 +65,11 @@ type Episode struct {
 	Dead   bool
 	// NoChannel: the server (Spec.NoSecurity) accepted no secure channel at all
 	NoChannel bool
+	// SecPolicy / SecMode / Client / ServerCertDER: channel A is opened with this security (channel B stays None)
+	SecPolicy     string
+	SecMode       ua.MessageSecurityMode
+	Client        *Identity
+	ServerCertDER []byte
 	// NonRSA marks sessions created with a certificate that is not an RSA certificate
 	NonRSA map[int]bool
 	// PostWait: how long to watch the server process after an answered request (crashes in
@@ -371,25 +379,57 @@ func (e *Episode) DoOn(on *Chan, kind, mreq string, req ua.Request, note string)
 
 // NewSession creates (and optionally activates / closes) a session with the given token kind in the header.
 func (e *Episode) NewSession(kind string, activate, closeIt bool) *Sess {
-	res := e.Do(kind, "createsession ? 0 rsa", CreateSessionReq(e.Child.URL, nil), "")
+	sec, cert := "0", []byte(nil)
+	if e.SecPolicy != "" {
+		sec, cert = "1", e.Client.Cert
+	}
+	res := e.Do(kind, "createsession ? "+sec+" rsa", CreateSessionReq(e.Child.URL, cert), "")
 	cr, ok := res.Resp.(*ua.CreateSessionResponse)
 	if !ok {
 		if e.Infra == "" && !e.Dead {
 			e.Infra = "CreateSession failed: " + res.String()
 		}
-		return &Sess{0, nil}
+		return &Sess{}
 	}
-	s := &Sess{e.TokIdx[cr.AuthenticationToken.String()], cr.AuthenticationToken}
+	s := &Sess{Idx: e.TokIdx[cr.AuthenticationToken.String()], Tok: cr.AuthenticationToken}
+	s.ServerNonce, s.ServerCert = cr.ServerNonce, cr.ServerCertificate
 	save := e.Valid
 	e.Valid = s
 	if activate {
-		e.Do("valid", "activate 0 1", ActivateSessionReq(nil, ""), "")
+		e.Activate(s, true)
 	}
 	if closeIt {
 		e.Do("valid", "close", &ua.CloseSessionRequest{DeleteSubscriptions: true}, "")
 	}
 	e.Valid = save
 	return s
+}
+
+// Activate sends ActivateSession for s (as the "valid" role must already point to it, or kind is
+// resolved by the caller) with a correct or a wrong client signature; on an unsecured channel the
+// signature is empty and always accepted.
+func (e *Episode) Activate(s *Sess, good bool) Result {
+	save := e.Valid
+	e.Valid = s
+	defer func() { e.Valid = save }()
+	if e.SecPolicy == "" {
+		return e.Do("valid", "activate 0 1", ActivateSessionReq(nil, ""), "")
+	}
+	sig, alg, err := e.ChA.SC.NewSessionSignature(s.ServerCert, s.ServerNonce)
+	if err != nil {
+		e.Infra = "NewSessionSignature: " + err.Error()
+		return Result{Class: "skipped"}
+	}
+	if !good {
+		sig = append([]byte(nil), sig...)
+		sig[len(sig)/2] ^= 0x40
+		return e.Do("valid", "activate 1 0", ActivateSessionReq(sig, alg), "wrong client signature")
+	}
+	r := e.Do("valid", "activate 1 1", ActivateSessionReq(sig, alg), "")
+	if ar, ok := r.Resp.(*ua.ActivateSessionResponse); ok {
+		s.ServerNonce = ar.ServerNonce
+	}
+	return r
 }
 
 func (e *Episode) Setup() bool {
@@ -410,7 +450,11 @@ func (e *Episode) Setup() bool {
 		e.ChB = nil
 		return true
 	}
-	e.ChA, err = OpenStd(ctx, e.Child.URL, ua.SecurityPolicyURINone, ua.MessageSecurityModeNone, nil, nil, 8*time.Second)
+	if e.SecPolicy != "" {
+		e.ChA, err = OpenStd(ctx, e.Child.URL, e.SecPolicy, e.SecMode, e.Client, e.ServerCertDER, 10*time.Second)
+	} else {
+		e.ChA, err = OpenStd(ctx, e.Child.URL, ua.SecurityPolicyURINone, ua.MessageSecurityModeNone, nil, nil, 8*time.Second)
+	}
 	if err == nil {
 		e.ChB, err = OpenStd(ctx, e.Child.URL, ua.SecurityPolicyURINone, ua.MessageSecurityModeNone, nil, nil, 8*time.Second)
 	}
